@@ -73,7 +73,7 @@ func equalLS(a, b lockset) bool {
 // BaseKey identifies the object a lock or an access refers to. Values that are pure access
 // paths over parameters are compared by path, everything else by SSA value identity.
 func BaseKey(v ssa.Value) string {
-	v = Origin(v)
+	v = resolveCell(Origin(v))
 	if purePath(v, 0) {
 		return "path:" + Path(v)
 	}
@@ -708,4 +708,33 @@ func (a *AnyLocks) IsUnlockOf(instr ssa.Instruction, key string) bool {
 		return false
 	}
 	return BaseKey(base) == key
+}
+
+// resolveCell maps a load of a local cell that only ever holds one parameter / free variable
+// (a parameter captured by a closure is spilled into such a cell) to that parameter.
+func resolveCell(v ssa.Value) ssa.Value {
+	u, ok := v.(*ssa.UnOp)
+	if !ok || u.Op != token.MUL {
+		return v
+	}
+	a, ok := u.X.(*ssa.Alloc)
+	if !ok {
+		return v
+	}
+	var only ssa.Value
+	n := 0
+	for _, ref := range *a.Referrers() {
+		if st, ok := ref.(*ssa.Store); ok && st.Addr == a {
+			only = st.Val
+			n++
+		}
+	}
+	if n != 1 {
+		return v
+	}
+	switch only.(type) {
+	case *ssa.Parameter, *ssa.FreeVar:
+		return only
+	}
+	return v
 }
